@@ -382,3 +382,125 @@ c03h!(c03_two_subs_pdelete, {
     kani::cover!(true);
     core::mem::forget(wb);
 });
+
+// ------------------------------------------------------------------ subscriptions are independent of each other
+// @h props=C03,C17 tier=quick cap=1200 desc="subscribe(a) and psubscribe(a/#) (pattern extends the key); the key subscription is unsubscribed, then set a/b: the pattern subscription still gets exactly its event" bounds="keys a, a/b; 2 subscriptions; values Bool"
+c03h!(c03_unsubscribe_spares_longer_patterns, {
+    let ea = E::any(false);
+    let mut wb = wb_with(n1(None, "a", n0(Some(ea.entry()))), 1);
+    let r1 = aw!(wb.subscribe(cid(1), 1, s("a"), false, true));
+    let r2 = aw!(wb.psubscribe(cid(2), 2, s("a/#"), false, true));
+    let (mut rx1, mut rx2) = match (r1, r2) {
+        (Ok(a), Ok(b)) => (a.0, b.0),
+        _ => {
+            assert!(false, "C03: both subscriptions accepted");
+            return;
+        }
+    };
+    let u = aw!(wb.unsubscribe(cid(1), 1));
+    assert!(u.is_ok(), "C03: unsubscribe accepted");
+    core::mem::forget(u);
+    let nb: bool = kani::any();
+    let w = aw!(wb.set(s("a/b"), Value::Bool(nb), cid(3), false));
+    assert!(w.is_ok(), "C03: set accepted");
+    core::mem::forget(w);
+    assert!(next_pstate(&mut rx2, "a/b") == (VALUE, 1, true, Some(nb)), "C03: a subscription that was never unsubscribed keeps receiving the events of its pattern when another subscription on a prefix of it goes away");
+    assert!(next_pstate(&mut rx2, "").0 == NONE, "C03: ... exactly once");
+    assert!(next_state(&mut rx1).0 == NONE, "C03: the unsubscribed one gets nothing");
+    kani::cover!(true);
+    core::mem::forget(wb);
+});
+// @h props=C03,C17 tier=quick cap=1200 desc="psubscribe(a/?) by c1 and subscribe(a/b/c) by c2; c1 unsubscribes, then set a/b/c: c2 still gets its event" bounds="2 subscriptions; values Bool"
+c03h!(c03_unsubscribe_pattern_spares_longer_key, {
+    let mut wb = wb_with(n0(None), 0);
+    let r1 = aw!(wb.psubscribe(cid(1), 1, s("a/?"), false, true));
+    let r2 = aw!(wb.subscribe(cid(2), 2, s("a/b/c"), false, true));
+    let (mut rx1, mut rx2) = match (r1, r2) {
+        (Ok(a), Ok(b)) => (a.0, b.0),
+        _ => {
+            assert!(false, "C03: both subscriptions accepted");
+            return;
+        }
+    };
+    let u = aw!(wb.unsubscribe(cid(1), 1));
+    assert!(u.is_ok(), "C03: unsubscribe accepted");
+    core::mem::forget(u);
+    let nb: bool = kani::any();
+    let w = aw!(wb.set(s("a/b/c"), Value::Bool(nb), cid(3), false));
+    assert!(w.is_ok(), "C03: set accepted");
+    core::mem::forget(w);
+    assert!(next_state(&mut rx2) == (VALUE, Some(nb)), "C03: the longer subscription is still served");
+    assert!(next_state(&mut rx2).0 == NONE, "C03: ... exactly once");
+    kani::cover!(true);
+    core::mem::forget(wb);
+});
+/// a unique subscription (key or pattern) next to a non-unique key subscription on `a` holding `eb`;
+/// one value-preserving and one value-changing set. Whether an event is sent depends on "value changed":
+/// `eb` is concrete per branch (split in the harness), see c03_sub_plain_unique_snapshot.
+fn c03_unique_next_to_plain(eb: bool, unique_is_pattern: bool) {
+    let mut wb = wb_with(n1(None, "a", n0(Some(ValueEntry::Plain(Value::Bool(eb))))), 1);
+    let mut rxu_k = None;
+    let mut rxu_p = None;
+    if unique_is_pattern {
+        match aw!(wb.psubscribe(cid(1), 1, s("#"), true, true)) {
+            Ok(x) => rxu_p = Some(x.0),
+            Err(_) => {
+                assert!(false, "C03: psubscribe accepted");
+                return;
+            }
+        }
+    } else {
+        match aw!(wb.subscribe(cid(1), 1, s("a"), true, true)) {
+            Ok(x) => rxu_k = Some(x.0),
+            Err(_) => {
+                assert!(false, "C03: subscribe accepted");
+                return;
+            }
+        }
+    }
+    let mut rxn = match aw!(wb.subscribe(cid(2), 2, s("a"), false, true)) {
+        Ok(x) => x.0,
+        Err(_) => {
+            assert!(false, "C03: subscribe accepted");
+            return;
+        }
+    };
+    // value-preserving write
+    let w = aw!(wb.set(s("a"), Value::Bool(eb), cid(3), false));
+    assert!(w.is_ok(), "C03: set accepted");
+    core::mem::forget(w);
+    assert!(next_state(&mut rxn) == (VALUE, Some(eb)), "C03: value-preserving writes are suppressed ONLY for unique subscriptions: the non-unique one gets its event");
+    if let Some(rx) = rxu_k.as_mut() {
+        assert!(next_state(rx).0 == NONE, "C03: the unique key subscription gets nothing for a value-preserving write");
+    }
+    if let Some(rx) = rxu_p.as_mut() {
+        assert!(next_pstate(rx, "").0 == NONE, "C03: the unique pattern subscription gets nothing for a value-preserving write");
+    }
+    // value-changing write
+    let w = aw!(wb.set(s("a"), Value::Bool(!eb), cid(3), false));
+    assert!(w.is_ok(), "C03: set accepted");
+    core::mem::forget(w);
+    assert!(next_state(&mut rxn) == (VALUE, Some(!eb)), "C03: change delivered to the non-unique subscription");
+    if let Some(rx) = rxu_k.as_mut() {
+        assert!(next_state(rx) == (VALUE, Some(!eb)), "C03: change delivered to the unique key subscription");
+        assert!(next_state(rx).0 == NONE, "C03: nothing twice");
+    }
+    if let Some(rx) = rxu_p.as_mut() {
+        assert!(next_pstate(rx, "a") == (VALUE, 1, true, Some(!eb)), "C03: change delivered to the unique pattern subscription");
+        assert!(next_pstate(rx, "").0 == NONE, "C03: nothing twice");
+    }
+    assert!(next_state(&mut rxn).0 == NONE, "C03: nothing twice");
+    kani::cover!(true);
+    core::mem::forget((rxu_k, rxu_p, rxn));
+    core::mem::forget(wb);
+}
+// @h props=C03,C17 tier=quick cap=1200 desc="a unique and a non-unique subscription on the same key; a value-preserving and a value-changing set: unique gets only the change, non-unique gets both" bounds="key a plain; 2 subscriptions; 2 writes; values Bool"
+c03h!(c03_unique_and_plain_side_by_side, {
+    let eb: bool = kani::any();
+    if eb { c03_unique_next_to_plain(true, false) } else { c03_unique_next_to_plain(false, false) }
+});
+// @h props=C03,C17 tier=quick cap=1200 desc="a unique pattern subscription (#) next to a non-unique key subscription (a); value-preserving and value-changing set" bounds="key a plain; values Bool"
+c03h!(c03_unique_pattern_next_to_plain_key, {
+    let eb: bool = kani::any();
+    if eb { c03_unique_next_to_plain(true, true) } else { c03_unique_next_to_plain(false, true) }
+});
